@@ -20,7 +20,7 @@ import ast
 from sa.values import *
 from sa.lin import Lin
 from sa.model import AnalysisError, norm_text
-from .common import world, short, rest_consumption, der_readers
+from .common import targets_of, call_ordinal, world, short, rest_consumption, der_readers
 from .c08 import STR
 
 TAG = {"encode_sequence": "SEQ", "encode_integer": "INT", "encode_octet_string": "OCTET", "encode_bitstring": "BITS", "encode_oid": "OID", "encode_constructed": "CTX",
@@ -28,9 +28,10 @@ TAG = {"encode_sequence": "SEQ", "encode_integer": "INT", "encode_octet_string":
 
 EXEMPT_DROPS = {
     "keys:SigningKey.from_der": {
-        "s, _ = der.remove_octet_string(s)": "PKCS#8 attributes / publicKey after the privateKey OCTET STRING are ignored (documented)",
-        "tag, curve_oid_str, s = der.remove_constructed(s)": "ECPrivateKey publicKey [1] after the parameters is ignored (documented)",
-        "privkey_str, s = der.remove_octet_string(s)": "tail of ECPrivateKey after privateKey is ignored when the curve is known from the PKCS#8 algorithm identifier (documented)",
+        # keyed by (DER reader, ordinal of that reader's call in source order): independent of local names
+        ("remove_octet_string", 1): "PKCS#8 attributes / publicKey after the privateKey OCTET STRING are ignored (documented)",
+        ("remove_constructed", 1): "ECPrivateKey publicKey [1] after the parameters is ignored (documented)",
+        ("remove_octet_string", 2): "tail of ECPrivateKey after privateKey is ignored when the curve is known from the PKCS#8 algorithm identifier (documented)",
     }
 }
 
@@ -82,7 +83,7 @@ def prefix_of(reader, writer):
 def reader_trees(W, qname, cls):
     """set of TLV trees consumed along accepting paths of a from_der"""
     from sa.lin import S
-    res, it, raises = rest_consumption(W, qname, [cls, VBytes(STR)])
+    res, it, raises = rest_consumption(W, qname, [cls, VBytes(STR)], watch=("keys:SigningKey.from_string",))
     finals = it.watch_returns[qname]
     readers = der_readers(W.p)
     calls = []
@@ -171,10 +172,22 @@ def run(chk):
     src = norm_text(f.node)
     okc = True
     ntag = 0
+
+    def first_target(callee):
+        """local names bound to the first result of `der.<callee>(...)` in from_der"""
+        out = set()
+        for n in ast.walk(f.node):
+            if isinstance(n, ast.Assign) and isinstance(n.value, ast.Call) and norm_text(n.value.func).endswith(callee) and isinstance(n.targets[0], ast.Tuple) and isinstance(n.targets[0].elts[0], ast.Name):
+                out.add(n.targets[0].elts[0].id)
+        return out
+    vnames, tnames = set(targets_of(f.node, "remove_integer", 0)), set(targets_of(f.node, "remove_constructed", 0))
+    if len(vnames) != 1 or len(tnames) != 1:
+        raise AnalysisError("SigningKey.from_der: version / tag variables not found by role (%s, %s)" % (sorted(vnames), sorted(tnames)))
+    vname, tname = vnames.pop(), tnames.pop()
     for _v, fs in it_sk.watch_returns["keys:SigningKey.from_der"]:
-        ver = fs.env.get("version")
+        ver = fs.env.get(vname)
         okc &= isinstance(ver, VInt) and fs.proves_eq(ver.lin - 1)
-        tg = fs.env.get("tag")
+        tg = fs.env.get(tname)
         if tg is not None:
             ntag += 1
             okc &= isinstance(tg, VInt) and fs.proves_eq(tg.lin)
@@ -184,15 +197,10 @@ def run(chk):
     chk.ob("R09.1", "PKCS#8 writer uses oid_ecPublicKey, which the reader accepts", len(oid_w) == 1 and norm_text(oid_w[0].args[0]) == "*oid_ecPublicKey" and any(isinstance(n, ast.Name) and n.id == "oid_ecPublicKey" for n in ast.walk(f.node)), loc=sk_der.qname, key="C09|R09.1|oid", detail="algorithm OID written is not among those accepted")
     # ---------------- R09.7
     ex = EXEMPT_DROPS["keys:SigningKey.from_der"]
-    parents_stmt = {}
-    for n in ast.walk(f.node):
-        if isinstance(n, ast.Assign):
-            for c in ast.walk(n.value):
-                parents_stmt[norm_text(c)] = norm_text(n)
     dropped = []
     for e in res_sk:
         if not e["ok"]:
-            dropped.append(parents_stmt.get(e["site"][2], e["site"][2]))
+            dropped.append(call_ordinal(f.node, e["site"][2]) or e["site"][2])
     unexpected = [d for d in dropped if d not in ex]
     chk.ob("R09.7", "SigningKey.from_der drops only documented remainders %s" % sorted(dropped), not unexpected, loc=f.qname, key="C09|R09.7", detail="undocumented dropped remainder: %s" % unexpected)
     for e in res_vk:
@@ -282,8 +290,17 @@ def run(chk):
         okfix &= len(inner) >= 1
         chk.ob("R09.3", "to_der(%s): the privateKey OCTET STRING holds exactly orderlen(privkey.order) bytes (fixed length, leading zeros kept)" % fmt, okfix, loc="keys:SigningKey.to_der", key="C09|R09.3|der-private|%s" % fmt,
                detail="the privateKey field written by to_der(%s) is not the fixed-length big-endian scalar" % fmt)
-    fd = norm_text(p.func("keys:SigningKey.from_der").node)
-    chk.ob("R09.3", "SigningKey.from_der left-pads a short scalar to curve.baselen before the strict loader", "if len(privkey_str) < curve.baselen:" in fd and "* (curve.baselen - len(privkey_str)) + privkey_str" in fd, loc="keys:SigningKey.from_der", key="C09|R09.3|pad", detail="the left-padding of short private scalars changed")
+    # the strict fixed-length loader is reached only with at least curve.baselen octets (short
+    # scalars written by other implementations are left-padded first)
+    from sa.absint import Ctx as _Ctx0
+    fsc = [c for c in it_sk.watch_results["keys:SigningKey.from_string"] if c[0] == "keys:SigningKey.from_der"]
+    okpad = bool(fsc)
+    for c in fsc:
+        a_, cv0 = c[2][1], c[2][2] if len(c[2]) > 2 else c[3].get("curve")
+        bl = it_sk.getattr(_Ctx0(it_sk, None, "keys", None, 0), c[4], cv0, "baselen", None)[0][0] if cv0 is not None else None
+        okpad &= isinstance(a_, VBytes) and isinstance(bl, VInt) and c[4].proves_ge(a_.length - bl.lin)
+    chk.ob("R09.3", "SigningKey.from_der hands the strict loader at least curve.baselen octets (a short scalar is left-padded) [%d call state(s)]" % len(fsc), okpad, loc="keys:SigningKey.from_der", key="C09|R09.3|pad",
+           detail="from_der can pass a privateKey shorter than curve.baselen to the fixed-length loader (or no longer ends in from_string): short scalars written by other implementations would be refused")
     # ---------------- R09.4
     tp = p.func("keys:SigningKey.to_pem")
     written = {c.value for c in ast.walk(tp.node) if isinstance(c, ast.Constant) and isinstance(c.value, str) and "PRIVATE KEY" in c.value and len(c.value) < 30}
@@ -305,12 +322,23 @@ def run(chk):
     _rets, raised = itr.analyse(dq, [VK, VBytes(STR)])
     fder = p.func(dq)
     bs_line = min([n.lineno for n in ast.walk(fder.node) if isinstance(n, ast.Call) and norm_text(n.func).endswith("remove_bitstring")] or [10 ** 9])
-    late = [r for r in raised if r.kind == "explicit" and len(r.stack) == 1 and r.site[1] > bs_line and "empty" not in r.site[2]]
+    psn, cvn = targets_of(fder.node, "remove_bitstring", 0), targets_of(fder.node, "find_curve", None)
+    if len(psn) != 1 or len(cvn) != 1:
+        raise AnalysisError("VerifyingKey.from_der: point body / curve variables not found by role (%s, %s)" % (psn, cvn))
+    psn, cvn = psn[0], cvn[0]
+    # the refusals that depend on the point body: raises guarded by a test that mentions it
+    guard_lines = set()
+    for n in ast.walk(fder.node):
+        if isinstance(n, ast.If) and any(isinstance(x, ast.Name) and x.id == psn for x in ast.walk(n.test)):
+            for r_ in ast.walk(n):
+                if isinstance(r_, ast.Raise):
+                    guard_lines.add(r_.lineno)
+    late = [r for r in raised if r.kind == "explicit" and len(r.stack) == 1 and r.site[1] in guard_lines]
     okraw = True
     nlate = 0
     from sa.absint import Ctx as _Ctx
     for r in late:
-        ps, cv_ = r.state.env.get("point_str"), r.state.env.get("curve")
+        ps, cv_ = r.state.env.get(psn), r.state.env.get(cvn)
         if not isinstance(ps, VBytes) or cv_ is None:
             okraw = False
             continue
